@@ -20,23 +20,34 @@ What is proved here (model M4, where every `expect("inconsistent state")`, `unre
 * the three `debug_assert!`s of `ConnectionState::remove_call` (`call_function_reply`, `abort_call`, the deferred
   `remove_function_call` items) hold in every turn of `Broker::run`, by the cross-reference invariant of the call
   tables proved for C02 (`remove_call_asserts_hold`; reachable states with fewer than 2³² pending calls);
-* the cross-reference lookups of the call handlers cannot fail in a reachable state (registry invariant of C03,
-  callee-side invariant of C02): `call_reply_lookups_hold` — `call_function_reply` never returns one of its
-  `expect("inconsistent state")` results —, `remove_service_lookups_hold` — neither `remove_service` nor the loop over
-  the calls the service holds does —, `call_function_lookups_hold`;
-* for ALL histories `claim_channel_end` finds the connection that holds the other end (`claim_lookup_holds`, from the
-  ownership invariant of C05: a claimed end is held by a connection that is there);
-Partial: the remaining `expect("inconsistent state")` sites (subscriptions, introspection, the owner lookups of the
-event handlers) are cross-reference lookups whose unreachability needs the subscription / introspection parts of the
-consistency invariant, which are not proved. It is covered by the correspondence runs of the "abuse" profile (the model reports the
+* **of the 35 lookup sites of the model (the 38 `expect("inconsistent state")` calls of `broker.rs`; the two service handlers and some removal paths share a site) only the four of the introspection code can be reached**
+  (`inconsistent_state_only_in_introspection`: one whole turn of `Broker::run` — the handler of any event and every step
+  of the deferred work — from any reachable state; `Lemmas/Broker/Lookups.lean`, from the registry invariant of C03,
+  the callee-side invariant of C02 and the ownership invariant of C05); `request_does_not_panic` (no panic of any kind —
+  lookup, `unreachable!()`, `debug_assert!` — in the handler of the 31 request kinds that are not about introspection; with
+  the channel and listener invariants of C05 / C10 and the caller-side invariant of C02), `remove_service_and_object_cannot_fail`,
+  `shutdown_connection_lookups_hold`;
+* the work loop stops after finitely many items from every state (`work_loop_terminates`, a lexicographic measure;
+  `Lemmas/Broker/Terminate.lean`), so the outcome of a turn does not depend on the model's budget once that is large
+  enough (`work_loop_outcome_is_independent_of_the_budget`): "does not hang";
+* **`turn_panics_only_in_introspection`**: one whole turn from any reachable state, for any event, ends in a panic of any
+  kind only inside the introspection code, or on a connection id that is already in use, or by running out of the
+  model's budget (`Lemmas/Broker/NoPanic.lean`; adds that a connection lists a channel end once — `Nodup.lean` — and that
+  closing one end of a channel leaves the other as it was, so that the teardown of a connection only closes ends that
+  are still claimed); `teardown_panics_only_in_introspection`;
+Partial: the four lookups and four `debug_assert!`s of the introspection code (their invariant — serials ↔ queried
+entries, pending queries of live connections — is not proved), and that the concrete budget `loopFuel` of the model's
+`step` suffices (it is generous; the correspondence runs would show a `fuel` result) are not theorems; that a
+connection id is new is an assumption about the acceptor. It is covered by the correspondence runs of the "abuse" profile (the model reports the
 panic site by name, the harness catches panics around every poll and checks that every live connection
 is still answered at the end of each scenario).
 -/
 import Aldrin.Lemmas.Broker.Gauge
 import Aldrin.Lemmas.Broker.Events
 import Aldrin.Lemmas.Broker.CallAsserts
-import Aldrin.Lemmas.Broker.Callee
-import Aldrin.Lemmas.Broker.Own
+import Aldrin.Lemmas.Broker.Lookups
+import Aldrin.Lemmas.Broker.Terminate
+import Aldrin.Lemmas.Broker.NoPanic
 
 namespace Aldrin.Broker
 
@@ -107,200 +118,65 @@ theorem remove_call_asserts_hold :
 
 
 
-/-- **`call_function_reply` finds what it looks up.** In every reachable state, whoever sends whatever reply: the
-object and the service of the call are found (`expect("inconsistent state")` ×2). -/
-theorem call_reply_lookups_hold {b : Broker} {w : Work} (h : Reachable b w) (id : ConnId) (serial : Nat) (r : CallResult) (site : String) :
-    callFunctionReply ⟨b, w, []⟩ id serial r ≠ .error (.inconsistent site) := by
-  intro he
-  unfold callFunctionReply at he
-  split at he
-  · simp [okH] at he
-  · split at he
-    · simp [okH] at he
-    · rename_i call hcall
-      obtain ⟨sv, info, o, owner, q1, _, _, q4, _, _⟩ := callee_of_call (s := ⟨b, w, []⟩) h.cal h.reg.2 hcall
-      simp only [q4] at he
-      split at he
-      · simp [okH] at he
-      · simp only [St.setCalls_b_svcs, q1] at he
-        repeat' (split at he)
-        all_goals (simp [okH] at he)
+/-- **One turn of `Broker::run`, from any reachable state (fewer than 2³² pending calls), for any event — any message
+of any connection, connects, disconnects of all four kinds, shutdown —, including every step of the deferred work:** if
+the turn stops at an `expect("inconsistent state")`, it is one of the four lookups of the introspection code. All other
+such sites of `broker.rs` (objects, services, owners, calls, subscriptions, channels) are unreachable. -/
+theorem inconsistent_state_only_in_introspection {b : Broker} {w : Work} (h : Reachable b w) (hroom : b.calls.elems.length ≤ u32Max)
+    {e : Event} {site : String} (he : step b w e = .error (.inconsistent site)) :
+    site ∈ ["query introspection: conn", "introspection pending: conn", "remove_introspection_conn: serial", "query_replied: entry"] :=
+  step_sites h hroom he
 
-theorem calls_no_error {k : Uuid × Uuid} {l : List Nat} {t : St} {e : Panic} (hc : Cal (some (k, l)) t)
-    (he : removeService.calls t l = .error e) : False := by
-  obtain ⟨s1, hs1⟩ := removeService_calls_no_panic l t hc
-  rw [hs1] at he; cases he
+/-- **No request other than the three about introspection makes the broker panic in any way** — no failed lookup, no
+`unreachable!()`, no `debug_assert!` — in any reachable state: 31 of the 34 request kinds, sent by anybody, with any
+cookies and serials. (For the deferred work that follows the request see `inconsistent_state_only_in_introspection`.) -/
+theorem request_does_not_panic {b : Broker} {w : Work} (h : Reachable b w) (id : ConnId) (m : Req) (p : Panic)
+    (hm : ∀ tys, m ≠ .registerIntrospection tys) (hq : ∀ serial ty, m ≠ .queryIntrospection serial ty)
+    (hr : ∀ serial r, m ≠ .queryIntrospectionReply serial r) :
+    handleMessage ⟨b, w, []⟩ id m ≠ .error p :=
+  handleMessage_np h id m p hm hq hr
 
-/-- **`remove_service` finds what it looks up.** In every reachable state, for every cookie: the service entry is
-found, and so is every call the entry holds (`expect("inconsistent state")` ×2). -/
-theorem remove_service_lookups_hold {b : Broker} {w : Work} (h : Reachable b w) (c : Cookie) :
-    ∃ s', removeService ⟨b, w, []⟩ c = .ok s' := by
-  have hcal := h.cal
-  have hreg := h.reg.2
-  unfold removeService
-  split
-  · exact ⟨_, rfl⟩
-  · rename_i objId svcUuid info hu
-    have h5 := hreg.i5 c objId svcUuid info hu
-    simp only [sk, skl] at h5
-    split at h5
-    · rename_i svc hsv
-      simp only [St.setSvcUuids_b_svcs, hsv]
-      have hmid : Cal (some ((objId.uuid, svcUuid), svc.calls)) ((match AL.find? objId.uuid (((⟨b, w, []⟩ : St).setSvcUuids (AL.erase c b.svcUuids)).setSvcs
-            (AL.erase (objId.uuid, svcUuid) b.svcs)).b.objs with
-          | some o => (((⟨b, w, []⟩ : St).setSvcUuids (AL.erase c b.svcUuids)).setSvcs (AL.erase (objId.uuid, svcUuid) b.svcs)).setObjs
-                (AL.insert objId.uuid { o with svcs := sremove c o.svcs }
-                  (((⟨b, w, []⟩ : St).setSvcUuids (AL.erase c b.svcUuids)).setSvcs (AL.erase (objId.uuid, svcUuid) b.svcs)).b.objs)
-          | none => ((⟨b, w, []⟩ : St).setSvcUuids (AL.erase c b.svcUuids)).setSvcs (AL.erase (objId.uuid, svcUuid) b.svcs))) := by
-        refine Cal.of_views (CalleeP.drop_entry hcal (k := (objId.uuid, svcUuid)) (l := svc.calls) (scv_find hsv)) ?_ ?_
-        · intro bs; split <;> simp [gk]
-        · intro k
-          have : ∀ t : St, t.b.svcs = AL.erase (objId.uuid, svcUuid) b.svcs → scv t k = upd (scv ⟨b, w, []⟩) (objId.uuid, svcUuid) none k := by
-            intro t ht
-            simp only [scv, ht, scl_erase, upd_apply]
-          split <;> exact this _ (by simp)
-      split
-      · rename_i e heq
-        exfalso
-        refine calls_no_error (k := (objId.uuid, svcUuid)) ?_ heq
-        exact Cal.of_eq hmid rfl rfl
-      · exact ⟨_, rfl⟩
-    · simp at h5
+/-- **`remove_service` and `remove_object` cannot fail at all** in a reachable state, for any cookie: the service entry,
+every call the entry holds, the object and each of its services are found. -/
+theorem remove_service_and_object_cannot_fail {b : Broker} {w : Work} (h : Reachable b w) (c : Cookie) :
+    (∃ s', removeService ⟨b, w, []⟩ c = .ok s') ∧ (∃ s', removeObject ⟨b, w, []⟩ c = .ok s') :=
+  ⟨removeService_ok h.cal h.reg.2 c, removeObject_ok h.cal h.reg.2 c⟩
 
-/-- **`call_function` finds what it looks up.** In every reachable state, whoever calls whatever: the object of the
-service, its owner's connection and the service entry are found (`expect("inconsistent state")` ×3). -/
-theorem call_function_lookups_hold {b : Broker} {w : Work} (h : Reachable b w) (id : ConnId) (serial : Nat) (svc : Cookie) (f : Nat)
-    (v : Option Nat) (p : Payload) (site : String) :
-    callFunctionImpl ⟨b, w, []⟩ id serial svc f v p ≠ .error (.inconsistent site) := by
-  intro he
-  have hreg := h.reg.2
-  unfold callFunctionImpl at he
-  split at he
-  · simp [okH] at he
-  · rename_i conn hconn
-    split at he
-    · simp at he
-    · rename_i objId svcUuid info hsvc
-      rcases hreg.i7 svc objId svcUuid info hsvc with ⟨_, o, ho, _⟩ | ⟨l, hl, _⟩
-      · simp only [obv] at ho
-        simp only [ho] at he
-        split at he
-        · simp [errH] at he
-        · rcases hreg.i3 _ o ho with ⟨lo, hlo, _⟩ | ⟨lo, hlo, _⟩
-          · simp only [ro] at hlo
-            split at hlo
-            · rename_i owner hown
-              have h5 := hreg.i5 svc objId svcUuid info hsvc
-              simp only [sk, skl] at h5
-              split at h5
-              · rename_i sv hsv
-                have e1 : ∀ t : St, t.b.conns = AL.insert id { conn with calls := conn.calls ++ [(serial, ((b.calls.insert (⟨serial, id, objId.uuid, svcUuid, false⟩ : Call)).2, o.conn))] } b.conns →
-                    ∃ callee, t.conn? o.conn = some callee := by
-                  intro t ht
-                  simp only [St.conn?, ht, AL.find?_insert]
-                  split
-                  · exact ⟨_, rfl⟩
-                  · exact ⟨owner, hown⟩
-                obtain ⟨callee, hcallee⟩ := e1 (((⟨b, w, []⟩ : St).setCalls (b.calls.insert (⟨serial, id, objId.uuid, svcUuid, false⟩ : Call)).1).setConn id
-                  { conn with calls := conn.calls ++ [(serial, ((b.calls.insert (⟨serial, id, objId.uuid, svcUuid, false⟩ : Call)).2, o.conn))] }) (by simp)
-                simp only [hcallee, St.setConn_b_svcs, St.setCalls_b_svcs, hsv] at he
-                simp [okH] at he
-              · simp at h5
-            · simp at hlo
-          · simp at hlo
-      · simp at hl
+/-- the removal of a connection, in a reachable state: only the introspection lookups can fail -/
+theorem shutdown_connection_lookups_hold {b : Broker} {w : Work} (h : Reachable b w) (id : ConnId) (send : Bool) (site : String)
+    (he : shutdownConnection ⟨b, w, []⟩ id send = .error (.inconsistent site)) : site ∈ introspectionSites :=
+  shutdownConnection_sites h.lkinv he
 
-theorem isNone_isSome_absurd {α : Type} {o : Option α} (h1 : o.isNone = true) (h2 : o.isSome = true) : False := by
-  cases o <;> simp_all
+/-- **The broker does not panic.** One whole turn of `Broker::run` from any reachable state (fewer than 2³² pending
+calls), for any event — any message of any connection, connects, the four kinds of disconnect, shutdown —, including
+every step of the deferred work and the teardown of connections: if the turn ends in a panic of the model — a failed
+`expect`, an `unreachable!()`, a `debug_assert!` — then it is one raised by the introspection code (the handler of one of
+the three introspection requests, or `remove_introspection_conn`), or the id of a new connection was already in use
+(the acceptor never hands out an id twice), or the model's budget for the work loop ran out (see
+`work_loop_terminates`). -/
+theorem turn_panics_only_in_introspection {b : Broker} {w : Work} (h : Reachable b w) (hroom : b.calls.elems.length ≤ u32Max)
+    {e : Event} {p : Panic} (he : step b w e = .error p) :
+    p = .fuel ∨ p = .debugAssert "NewConnection: duplicate id" ∨ (∃ t cid, removeIntrospectionConn t cid = .error p) ∨
+      (∃ id m, m.isIntrospection = true ∧ handleMessage ⟨b, w, []⟩ id m = .error p) :=
+  step_panics h hroom he
 
-theorem claimSender_other {c c' : Chan} {conn other : ConnId} {cap : Nat} (h : c.claimSender conn = .ok (.ok (c', other, cap))) :
-    endOwner c.receiver = some other := by
-  unfold Chan.claimSender at h
-  repeat' ((try simp only [] at h); split at h)
-  all_goals (try (simp at h; done))
-  all_goals (simp only [Except.ok.injEq, Prod.mk.injEq] at h; obtain ⟨_, rfl, _⟩ := h)
-  all_goals (simp_all [endOwner])
+/-- the teardown of a connection, from any reachable state: it can only panic inside `remove_introspection_conn` -/
+theorem teardown_panics_only_in_introspection {b : Broker} {w : Work} (h : Reachable b w) (id : ConnId) (send : Bool) (p : Panic)
+    (he : shutdownConnection ⟨b, w, []⟩ id send = .error p) : ∃ t cid, removeIntrospectionConn t cid = .error p :=
+  shutdownConnection_panics h.lkinv h.clinv.1 h.nd he
 
-theorem claimReceiver_other {c c' : Chan} {conn other : ConnId} {cap : Nat} (h : c.claimReceiver conn cap = .ok (.ok (c', other))) :
-    endOwner c.sender = some other := by
-  unfold Chan.claimReceiver at h
-  repeat' ((try simp only [] at h); split at h)
-  all_goals (try (simp at h; done))
-  all_goals (simp only [Except.ok.injEq, Prod.mk.injEq] at h; obtain ⟨_, rfl⟩ := h)
-  all_goals (simp_all [endOwner])
+/-- **The broker does not hang in its work loop.** From every state — reachable or not — the loop of
+`process_loop_result` stops after finitely many items of deferred work: nothing is left, or an item fails. (Lexicographic
+measure: connections; deferred items other than removals of connections; removals of connections. A `send!` to a
+connection whose task is gone only ever defers the removal of that connection.) -/
+theorem work_loop_terminates (s : St) : ∃ s1, Steps s s1 ∧ (processOne s1 = none ∨ ∃ p, processOne s1 = some (.error p)) :=
+  loop_terminates s
 
-theorem claimSender_error {c : Chan} {conn : ConnId} {p : Panic} (h : c.claimSender conn = .error p) : ∀ site, p ≠ .inconsistent site := by
-  unfold Chan.claimSender at h
-  repeat' ((try simp only [] at h); split at h)
-  all_goals (try (simp at h; done))
-  all_goals (simp only [Except.error.injEq] at h; subst h; intro site hh; cases hh)
-
-theorem claimReceiver_error {c : Chan} {conn : ConnId} {cap : Nat} {p : Panic} (h : c.claimReceiver conn cap = .error p) :
-    ∀ site, p ≠ .inconsistent site := by
-  unfold Chan.claimReceiver at h
-  repeat' ((try simp only [] at h); split at h)
-  all_goals (try (simp at h; done))
-  all_goals (simp only [Except.error.injEq] at h; subst h; intro site hh; cases hh)
-
-/-- **`claim_channel_end` finds the connection that holds the other end**, after every history, whoever claims whatever -/
-theorem claim_lookup_holds (es : List Event) (b : Broker) (w : Work) (outs : List (List Out))
-    (h : run {} {} es = .ok (b, w, outs)) (id : ConnId) (serial : Nat) (ck : Cookie) (e : ChanEnd) (cap : Nat) (site : String) :
-    claimChannelEnd ⟨b, w, []⟩ id serial ck e cap ≠ .error (.inconsistent site) := by
-  have hown := run_own es _ _ _ _ _ G2_init Own.init h
-  have there : ∀ (x : Hold) (o : ConnId), own ⟨b, w, []⟩ x = some o → (AL.find? o b.conns).isSome = true := by
-    intro x o hx
-    rcases hown.o1 x o hx with ⟨L, hl, _⟩ | ⟨L, hp, _⟩
-    · simp only [co, cv] at hl
-      split at hl
-      · rename_i conn hconn; simp [hconn]
-      · simp at hl
-    · simp at hp
-  intro he
-  unfold claimChannelEnd at he
-  split at he
-  · simp [okH] at he
-  · split at he
-    · simp at he
-    · rename_i ch hch
-      obtain ⟨os, or⟩ := own_chan (s := ⟨b, w, []⟩) hch
-      simp only [] at he
-      cases e <;> simp only [] at he
-      · cases hcl : ch.claimSender id with
-        | error p => simp only [hcl, Except.error.injEq] at he; exact claimSender_error hcl site he
-        | ok r =>
-          cases r with
-          | error r' => simp [hcl] at he
-          | ok v =>
-            obtain ⟨ch', other, c⟩ := v
-            simp only [hcl] at he
-            have hth := there (.rcv, ck) other (by rw [or]; exact claimSender_other hcl)
-            split at he
-            · rename_i hnone
-              simp only [St.conn?, St.send_b_conns] at hnone
-              have := conn?_isSome_updConn ((⟨b, w, []⟩ : St).setChannels (AL.insert ck ch' b.channels)) id
-                (fun c => { c with senders := sinsert ck c.senders }) other
-              simp only [St.conn?, St.setChannels_b_conns] at this
-              rw [hth] at this
-              exact isNone_isSome_absurd hnone this
-            · simp at he
-      · cases hcl : ch.claimReceiver id cap with
-        | error p => simp only [hcl, Except.error.injEq] at he; exact claimReceiver_error hcl site he
-        | ok r =>
-          cases r with
-          | error r' => simp [hcl] at he
-          | ok v =>
-            obtain ⟨ch', other⟩ := v
-            simp only [hcl] at he
-            have hth := there (.snd, ck) other (by rw [os]; exact claimReceiver_other hcl)
-            split at he
-            · rename_i hnone
-              simp only [St.conn?, St.send_b_conns] at hnone
-              have := conn?_isSome_updConn ((⟨b, w, []⟩ : St).setChannels (AL.insert ck ch' b.channels)) id
-                (fun c => { c with receivers := sinsert ck c.receivers }) other
-              simp only [St.conn?, St.setChannels_b_conns] at this
-              rw [hth] at this
-              exact isNone_isSome_absurd hnone this
-            · simp at he
+/-- hence the outcome of the model's `processLoop` does not depend on its budget once that is large enough: the model's
+"out of fuel" result is never what ends the loop -/
+theorem work_loop_outcome_is_independent_of_the_budget (s : St) : ∃ n r, (∀ fuel, n ≤ fuel → processLoop fuel s = r) ∧
+    (r = .error .fuel → ∃ s1, Steps s s1 ∧ processOne s1 = some (.error .fuel)) :=
+  processLoop_stable s
 
 /-! non-vacuity: abuse by connection 1 (wrong direction, then it is gone); connection 0 is still served -/
 example : (match run {} {} [.newConn 0 20, .newConn 1 14, .msg 1 (.other 31), .msg 1 (.sync 5), .msg 0 (.sync 6)] with
